@@ -192,8 +192,8 @@ def run(model: Model, rep, tier: str) -> None:
 _B = F
 MUTANTS = [
     ("worker writes the transposed slot",
-     (_B, "            data[j, i] = self._kernel(\n                ubasis[j],",
-      "            data[i, j] = self._kernel(\n                ubasis[j],"),
+     (_B, "            data[i, j] = self._kernel(\n                ubasis[j],",
+      "            data[j, i] = self._kernel(\n                ubasis[j],"),
      None),
     ("join loop removed",
      (_B, "            for t in threads:\n                t.join()\n", ""),
